@@ -590,3 +590,145 @@ Theorem C02_keeping_example :
 Proof. exact keeping_example. Qed.
 Print Assumptions C02_keeping_example.
 
+
+(* ---- commutation when managers DO abandon fields (Proofs/Commute2*.v): proved when every
+   abandoned member of either manager's previous record is "shallow" -- a leaf of the live
+   object all of whose proper ancestors are nodes of the manager's new configuration (fields
+   directly beneath the root, a struct, or a member / entry the manager keeps applying): no
+   container is emptied, so no null leftovers.  This subsumes the fresh and the keeping case.
+   Necessary: refuted when a manager abandons a whole list member that the other applies
+   (C02_commutation_needs_shallow_abandonment).  For deep abandonment, prefix-disjointness of
+   the previous records from the other configuration is NOT enough
+   (C02_commutation_H1_not_enough, on a state satisfying the invariant in which no record
+   covers a member of the list). ---- *)
+From Coq Require Import List ZArith String Bool Arith Lia.
+From SMD Require Import Model.Value Model.Order Model.PathElem Model.PathSet Model.Schema Model.Walk
+  Model.Validate Model.FieldSet Model.Remove Model.Merge Model.Compare Model.Matcher Model.Reconcile
+  Model.Updater
+  Spec.PathsAsSets Spec.RefValid Spec.Resolve Spec.Agree Spec.RefDiff Spec.Examples
+  Proofs.OrderLaws Proofs.PathSetLaws Proofs.SchemaOk Proofs.FieldSetBase Proofs.FieldSetPaths
+  Proofs.FieldSetWf Proofs.FieldSetLaws Proofs.RemoveAbsent Proofs.RemoveWf Proofs.ResolveLaws
+  Proofs.UpdaterLaws Proofs.UpdaterLaws2 Proofs.MergeLaws Proofs.MergeAgree
+  Proofs.RemoveFrame Proofs.EnLaws Proofs.NodeSet Proofs.KeyFields Proofs.VeqbResolve
+  Proofs.SetCheckers Proofs.ApplyEffect Proofs.RefDiffBoth Proofs.RefDiffLaws Proofs.RefDiffPresent
+  Proofs.ApplyInv Proofs.History Proofs.Reapply.
+From SMD Require Import Proofs.CompareLaws Proofs.ReconcileTotal Proofs.ConflictsApply Proofs.ApplyPruneBase
+  Proofs.RecordsHistory Proofs.TreeFacts
+  Proofs.FieldSetShape Proofs.SameLeaves Proofs.CommuteLeaves Proofs.CommuteMod Proofs.CommuteSame
+  Proofs.Commute Proofs.Commute2Leaves Proofs.Commute2Step.
+From SMD Require Proofs.MergeRest Proofs.MergeBase Proofs.ReconcileBase Proofs.MergeRestBase Proofs.RefDiffBase
+  Proofs.RefDiffChar Proofs.ExtractBase Proofs.OthersKeep.
+From SMD Require Import Proofs.Commute2.
+Theorem C02_shallow_abandoning_applies_commute :
+  forall (c : config) (R : typeref -> Prop) (ver : string) (live : value) 
+           (mf : managed) (a b : string) (cfgA cfgB : value) (fsA fsB : pset),
+         setting_ok c R ver ->
+         state_ok c ver live mf ->
+         dup_free (schema_of c ver) (tr_of c ver) live = true ->
+         hollow_free live ->
+         a <> b ->
+         shallow c ver cfgA live mf a ->
+         shallow c ver cfgB live mf b ->
+         op_ok c ver (HApply a cfgA true) ->
+         op_ok c ver (HApply b cfgB true) ->
+         to_field_set (schema_of c ver) (tr_of c ver) cfgA = Some fsA ->
+         to_field_set (schema_of c ver) (tr_of c ver) cfgB = Some fsB ->
+         prefix_disjoint fsA fsB ->
+         let sAB := both c ver (live, mf) (HApply a cfgA true) (HApply b cfgB true) in
+         let sBA := both c ver (live, mf) (HApply b cfgB true) (HApply a cfgA true) in
+         veq_assoc (schema_of c ver) (tr_of c ver) (fst sAB) (fst sBA) = true /\
+         same_records (snd sAB) (snd sBA).
+Proof. exact shallow_abandoning_applies_commute. Qed.
+Print Assumptions C02_shallow_abandoning_applies_commute.
+
+Theorem C02_commutation_needs_shallow_abandonment :
+  setting_ok ex_config FieldSetLaws.ex_R "v1" /\
+         state_ok ex_config "v1" hx_obj hx_mf /\
+         dup_free (schema_of ex_config "v1") (tr_of ex_config "v1") hx_obj = true /\
+         hollow_free hx_obj /\
+         "a" <> "e" /\
+         ~ shallow ex_config "v1" l4_cfgA hx_obj hx_mf "a" /\
+         shallow ex_config "v1" l4_cfgB hx_obj hx_mf "e" /\
+         op_ok ex_config "v1" (HApply "a" l4_cfgA true) /\
+         op_ok ex_config "v1" (HApply "e" l4_cfgB true) /\
+         to_field_set (schema_of ex_config "v1") (tr_of ex_config "v1") l4_cfgA = Some l2_fsA /\
+         to_field_set (schema_of ex_config "v1") (tr_of ex_config "v1") l4_cfgB = Some l4_fsB /\
+         prefix_disjoint l2_fsA l4_fsB /\
+         (let sAB :=
+            both ex_config "v1" (hx_obj, hx_mf) (HApply "a" l4_cfgA true)
+              (HApply "e" l4_cfgB true) in
+          let sBA :=
+            both ex_config "v1" (hx_obj, hx_mf) (HApply "e" l4_cfgB true)
+              (HApply "a" l4_cfgA true) in
+          veq_assoc (schema_of ex_config "v1") (tr_of ex_config "v1") (fst sAB) (fst sBA) = false /\
+          ~ same_records (snd sAB) (snd sBA)).
+Proof. exact shallow_needed. Qed.
+Print Assumptions C02_commutation_needs_shallow_abandonment.
+
+Theorem C02_commutation_H1_not_enough :
+  setting_ok ex_config FieldSetLaws.ex_R "v1" /\
+         state_ok ex_config "v1" u_obj u_mf /\
+         dup_free (schema_of ex_config "v1") (tr_of ex_config "v1") u_obj = true /\
+         hollow_free u_obj /\
+         "a" <> "b" /\
+         op_ok ex_config "v1" (HApply "a" l2_cfgA true) /\
+         op_ok ex_config "v1" (HApply "b" l2_cfgB true) /\
+         to_field_set (schema_of ex_config "v1") (tr_of ex_config "v1") l2_cfgA = Some l2_fsA /\
+         to_field_set (schema_of ex_config "v1") (tr_of ex_config "v1") l2_cfgB = Some l2_fsB /\
+         prefix_disjoint l2_fsA l2_fsB /\
+         prefix_disjoint u_setA l2_fsB /\
+         prefix_disjoint u_setB l2_fsA /\
+         (let sAB :=
+            both ex_config "v1" (u_obj, u_mf) (HApply "a" l2_cfgA true) (HApply "b" l2_cfgB true)
+            in
+          let sBA :=
+            both ex_config "v1" (u_obj, u_mf) (HApply "b" l2_cfgB true) (HApply "a" l2_cfgA true)
+            in
+          fst sAB = VMap (("aa", VInt 1) :: ("mm", VMap (("k", VInt 1) :: nil)) :: nil) /\
+          fst sBA =
+          VMap
+            (("aa", VInt 1)
+             :: ("items", VList (VMap (("name", VStr "y") :: nil) :: nil))
+                :: ("mm", VMap (("k", VInt 1) :: nil)) :: nil) /\
+          present (schema_of ex_config "v1") (tr_of ex_config "v1") (fst sAB)
+            (PEField "items" :: PEKey (("name", VStr "y") :: nil) :: PEField "name" :: nil) =
+          false /\
+          resolve_path (schema_of ex_config "v1") (tr_of ex_config "v1") 
+            (fst sBA)
+            (PEField "items" :: PEKey (("name", VStr "y") :: nil) :: PEField "name" :: nil) =
+          Some (RNode ex_str (VStr "y"))).
+Proof. exact abandoning_commute_H1_not_enough. Qed.
+Print Assumptions C02_commutation_H1_not_enough.
+
+Theorem C02_abandoning_example :
+  let sAB :=
+           both ex_config "v1" (hx_obj, hx_mf) (HApply "a" ax_cfgA true)
+             (HApply "c" ax_cfgB true) in
+         let sBA :=
+           both ex_config "v1" (hx_obj, hx_mf) (HApply "c" ax_cfgB true)
+             (HApply "a" ax_cfgA true) in
+         (~ keeps_all ex_config "v1" ax_cfgA hx_mf "a" /\
+          ~ keeps_all ex_config "v1" ax_cfgB hx_mf "c") /\
+         (veq_assoc (schema_of ex_config "v1") (tr_of ex_config "v1") (fst sAB) (fst sBA) = true /\
+          same_records (snd sAB) (snd sBA)) /\
+         fst sAB = ax_obj /\
+         fst sBA = ax_obj /\
+         map (fun mr : string * mrec => (fst mr, ps_elems (mr_set (snd mr)))) (snd sAB) =
+         ("a",
+          (PEField "items" :: PEKey (("name", VStr "y") :: nil) :: nil)
+          :: (PEField "items" :: PEKey (("name", VStr "y") :: nil) :: PEField "name" :: nil)
+             :: nil)
+         :: ("b",
+             (PEField "items" :: PEKey (("name", VStr "z") :: nil) :: nil)
+             :: (PEField "items" :: PEKey (("name", VStr "z") :: nil) :: PEField "name" :: nil)
+                :: (PEField "items" :: PEKey (("name", VStr "z") :: nil) :: PEField "vv" :: nil)
+                   :: nil)
+            :: ("c", (PEField "mm" :: PEField "j" :: nil) :: nil)
+               :: ("d",
+                   (PEField "items" :: PEKey (("name", VStr "y") :: nil) :: PEField "vv" :: nil)
+                   :: nil) :: nil /\
+         map (fun mr : string * mrec => (fst mr, ps_elems (mr_set (snd mr)))) (snd sBA) =
+         map (fun mr : string * mrec => (fst mr, ps_elems (mr_set (snd mr)))) (snd sAB).
+Proof. exact abandoning_example. Qed.
+Print Assumptions C02_abandoning_example.
+
